@@ -49,6 +49,18 @@ CLAIMED = {
             "read back through the real Scenario/Events machinery.",
             "Lean 4 proof (array invariants, run-length round trip) + Float bit-level correspondence on captured calls + read-back oracle",
             "DESIGN.md §4 C13"),
+    "C18": ("Feed-in split (three parts >= 0, priority generation -> V2G -> battery, sum = total feed-in; rounded parts "
+            "within half a unit in the last place), one row per reported step with every column the rounding of the named "
+            "series (grid supply = -connector power, station columns and their sum, fixed load, generation, battery power "
+            "and energy, occupied stations), header/row alignment for every component-presence combination, the SoC series "
+            "and the window-column round trip are Lean theorems about the model of report.py; of the aggregates the energy "
+            "sums, window energies, averages, peaks and battery cycles are proved (C18_aggregates_partial: standing-time "
+            "aggregates and flex averages only by correspondence). Real generate_reports output for all 128 output-option "
+            "combinations, completed and aborted runs, is parsed back and compared cell by cell with the model (exact "
+            "rounding on the floats' binary values); post-hoc cost calculation from the written files is compared with the "
+            "in-run result. Findings: price column name mismatch (D12), vehicle cycles (N3).",
+            "Lean 4 proof (split, row/header construction, aggregates partial) + exact cell-level correspondence on written files",
+            "DESIGN.md §4 C18"),
     "C19": ("Statistics and trip-table generators are modelled as functions of the recorded random draws / rows; "
             "alternation of departure/arrival in strictly increasing time, consistency of announced times, consumption "
             "range, desired SoC >= min_soc and >= buffered consumption until the next connection, purity and the while-loop "
